@@ -1,0 +1,103 @@
+/*
+ * myth_verif.h --- observation / yield points for external verification
+ * harnesses.  Everything here is compiled in only with -DMYTH_VERIF;
+ * without it every macro expands to nothing.
+ *
+ * The hooks are function pointers that are NULL by default, so a library
+ * built with -DMYTH_VERIF behaves as usual until a harness installs them.
+ */
+#pragma once
+#ifndef MYTH_VERIF_H_
+#define MYTH_VERIF_H_
+
+#ifdef MYTH_VERIF
+
+#include <stddef.h>
+#include <time.h>
+
+/* ids of points (a place where another worker may be scheduled) and
+   spins (the caller cannot proceed until another worker acts) */
+enum {
+  /* spin lock */
+  MVS_SPIN_LOCK = 100, MVP_SPIN_TRY = 101, MVP_SPIN_UNLOCK = 102,
+  /* work stealing queue */
+  MVP_Q_PUSH_A = 200, MVP_Q_PUSH_B = 201, MVP_Q_PUSH_MOVE = 202, MVP_Q_PUSH_C = 203,
+  MVP_Q_POP_A = 210, MVP_Q_POP_B = 211, MVP_Q_POP_C = 212, MVP_Q_POP_SLOW = 213,
+  MVP_Q_TAKE_A = 220, MVP_Q_TAKE_B = 221, MVP_Q_TAKE_C = 222, MVP_Q_TAKE_D = 223,
+  MVP_Q_PEEK_A = 230, MVP_Q_PEEK_B = 231,
+  MVP_Q_PASS_A = 240, MVP_Q_PASS_B = 241, MVS_Q_PASS = 242,
+  MVP_Q_PUT_A = 250, MVP_Q_PUT_MOVE = 251, MVP_Q_PUT_B = 252,
+  MVP_WSAPI_TAKE_A = 260, MVP_WSAPI_TAKE_B = 261, MVP_WSAPI_TAKE_C = 262,
+  MVP_WSAPI_TAKE_DECL = 263, MVS_WSAPI_PEEK = 264,
+  /* create / join / exit / detach / yield */
+  MVS_JOIN_READY2_A = 300, MVS_JOIN_READY2_B = 301, MVS_TRYJOIN_READY2 = 302,
+  MVS_DETACH_READY2 = 303,
+  MVP_JOIN_A = 310, MVP_JOIN_B = 311, MVP_JOIN_CB_A = 312, MVP_JOIN_CB_B = 313,
+  MVP_JOIN_RESUMED = 314,
+  MVP_EXIT_A = 320, MVP_EXIT_B = 321, MVP_EXIT_CB_A = 322, MVP_EXIT_CB_B = 323,
+  MVP_EXIT_CB_C = 324, MVP_EXIT_CB_D = 325,
+  MVP_CREATE_A = 330, MVP_CREATE_B = 331, MVP_CREATE_CB_A = 332, MVP_CREATE_CB_B = 333,
+  MVP_DETACH_A = 340, MVP_DETACH_B = 341, MVP_TRYJOIN_A = 342,
+  MVP_YIELD_A = 350, MVP_YIELD_CB_A = 351, MVP_YIELD_CB_B = 352,
+  MVS_SLEEP = 360, MVS_TIMEDJOIN = 361, MVS_TIMEDLOCK = 362,
+  /* sync */
+  MVS_WAKE_ONE = 400, MVS_WAKE_MANY_Q = 401, MVS_WAKE_MANY_S = 402, MVS_UNCOND_SIGNAL = 403,
+  MVS_ONCE_WAIT = 404,
+  MVP_BLOCK_CB_A = 410, MVP_BLOCK_CB_B = 411, MVP_BLOCK_S_CB_A = 412, MVP_BLOCK_S_CB_B = 413,
+  MVP_BLOCK_A = 414,
+  MVP_MUTEX_LOCK_A = 420, MVP_MUTEX_LOCK_B = 421, MVP_MUTEX_LOCK_C = 422,
+  MVP_MUTEX_TRY_A = 423, MVP_MUTEX_UNLOCK_A = 424, MVP_MUTEX_UNLOCK_B = 425,
+  MVP_MUTEX_CLEAR = 426, MVP_WAKE_PUSH = 427,
+  MVP_COND_WAIT_A = 430, MVP_COND_SIGNAL_A = 431, MVP_COND_BCAST_A = 432,
+  MVP_BARRIER_A = 440, MVP_BARRIER_B = 441, MVP_BARRIER_C = 442, MVP_BARRIER_D = 443,
+  MVP_SSTACK_POP = 444, MVP_SSTACK_PUSH = 445,
+  MVP_JC_WAIT_A = 450, MVP_JC_WAIT_B = 451, MVP_JC_DEC_A = 452, MVP_JC_DEC_B = 453,
+  MVP_UNCOND_WAIT_CB_A = 460, MVP_UNCOND_WAIT_CB_B = 461, MVP_UNCOND_SIG_A = 462,
+  MVP_UNCOND_SIG_B = 463, MVP_UNCOND_WAIT_A = 464,
+  MVP_ONCE_A = 470, MVP_ONCE_B = 471, MVP_ONCE_C = 472,
+  MVP_FE_A = 480, MVP_FE_B = 481,
+  /* scheduler loop */
+  MVS_IDLE = 500, MVP_SCHED_RUN = 501,
+  /* thread specific data */
+  MVP_KEY_ALLOC_A = 600, MVP_KEY_ALLOC_B = 601, MVP_KEY_FREE_A = 602, MVP_KEY_FREE_B = 603,
+  /* pthread wrapper */
+  MVP_MINIT_A = 700, MVP_MINIT_B = 701, MVP_MINIT_C = 702, MVS_MINIT = 703,
+};
+
+/* kinds of MYTH_VERIF_FENCE */
+enum { MVF_READ = 1, MVF_WRITE = 2, MVF_FULL = 3 };
+/* kinds of MYTH_VERIF_ALLOC/FREE */
+enum { MVA_DESC = 1, MVA_STACK = 2 };
+
+extern void (*volatile myth_verif_point_fn)(int id);
+extern void (*volatile myth_verif_spin_fn)(int id);
+extern void (*volatile myth_verif_fence_fn)(int kind);
+extern void (*volatile myth_verif_worker_fn)(int rank, unsigned int * rng);
+extern void (*volatile myth_verif_alloc_fn)(int kind, void * ptr, size_t size, int rank);
+extern void (*volatile myth_verif_free_fn)(int kind, void * ptr, size_t size, int rank);
+extern int  (*volatile myth_verif_clock_fn)(struct timespec * ts);
+
+#define MYTH_VERIF_POINT(id) \
+  do { void (*f_)(int) = myth_verif_point_fn; if (f_) f_(id); } while (0)
+#define MYTH_VERIF_SPIN(id) \
+  do { void (*f_)(int) = myth_verif_spin_fn; if (f_) f_(id); } while (0)
+#define MYTH_VERIF_FENCE(k) \
+  do { void (*f_)(int) = myth_verif_fence_fn; if (f_) f_(k); } while (0)
+#define MYTH_VERIF_ALLOC(kind,ptr,size,rank) \
+  do { void (*f_)(int,void*,size_t,int) = myth_verif_alloc_fn; \
+       if (f_) f_(kind,(void*)(ptr),(size_t)(size),rank); } while (0)
+#define MYTH_VERIF_FREE(kind,ptr,size,rank) \
+  do { void (*f_)(int,void*,size_t,int) = myth_verif_free_fn; \
+       if (f_) f_(kind,(void*)(ptr),(size_t)(size),rank); } while (0)
+
+#else  /* MYTH_VERIF */
+
+#define MYTH_VERIF_POINT(id) ((void)0)
+#define MYTH_VERIF_SPIN(id)  ((void)0)
+#define MYTH_VERIF_FENCE(k)  ((void)0)
+#define MYTH_VERIF_ALLOC(kind,ptr,size,rank) ((void)0)
+#define MYTH_VERIF_FREE(kind,ptr,size,rank)  ((void)0)
+
+#endif	/* MYTH_VERIF */
+
+#endif	/* MYTH_VERIF_H_ */
